@@ -16,7 +16,7 @@ EXTENDS MastDiffOps, MastCursorOps, Json
 Trace == ndJsonDeserialize("trace.ndjson")
 VARIABLES l, viol, stat
 tvars == <<l, viol, stat>>
-Stat0 == [events |-> 0, errs |-> 0, oks |-> 0, panics |-> 0, swallowed |-> 0, nothit |-> 0, load |-> 0, cmp |-> 0, marshal |-> 0, unmarshal |-> 0,
+Stat0 == [dlinks |-> 0, events |-> 0, errs |-> 0, oks |-> 0, panics |-> 0, swallowed |-> 0, nothit |-> 0, load |-> 0, cmp |-> 0, marshal |-> 0, unmarshal |-> 0,
           pairs |-> 0, ins |-> 0, del |-> 0, get |-> 0, iter |-> 0, seek |-> 0, clone |-> 0, walk |-> 0, diff |-> 0]
 TInit == l = 1 /\ viol = {} /\ stat = Stat0
 Ev == Trace[l]
@@ -37,17 +37,18 @@ Normal(e) ==
        [] c.op = "clone" -> [res |-> "ok", ents |-> S, data |-> S]
        [] c.op = "seek" -> [res |-> "ok", ents |-> S, data |-> From(S, c.k)]
        [] c.op = "walk" -> [res |-> "ok", ents |-> S, data |-> Expected(S, [start |-> c.start, p |-> c.k, moves |-> c.moves])]
+       [] c.op = "dlinks" -> [res |-> "ok", ents |-> S, data |-> e.ndata]
        [] c.op = "diff" -> [res |-> "ok", ents |-> S, data |-> Num(ModelDiff(MapOf(e.oents), m))]
 
 Same(o, ents, size) == o.err = "" /\ o.ents = ents /\ o.size = size
 \* after a failed insert / delete the tree, persisted through a clone, still has the shape its recorded height promises
 Consistent(e) == e.pok /\ e.pheight = e.post.height /\ Shape(e.pterm, e.pheight, e.cfg.layers, e.cfg.nk + 1)
 
-\* the input classes of the recorded findings, in terms of the trees only (no reliance on the wording of error messages): a delete
-\* whose normal result is lower than the tree was, an insert whose normal result is taller
-KeysOf(ents) == {ents[i][1] : i \in DOMAIN ents}
-ShrinkingDelete(e, n) == e.call.op = "del" /\ RuleHeight(KeysOf(n.ents), e.cfg.layers, e.cfg.bf) < e.pre.height
-GrowingInsert(e, n) == e.call.op = "ins" /\ RuleHeight(KeysOf(n.ents), e.cfg.layers, e.cfg.bf) > e.pre.height
+\* the input classes of the recorded findings, in terms of the trees only (no reliance on the wording of error messages): exactly
+\* the calls in which fallible steps come after the mutation - a delete on a tree of height > 0 goes on to the shrink loop
+\* (top-node inspection, merging the top levels), an insert at size >= bf^(height+1) goes on to the grow loop (layer computations)
+ShrinkingDelete(e, n) == e.call.op = "del" /\ e.pre.height > 0
+GrowingInsert(e, n) == e.call.op = "ins" /\ e.pre.size >= Pow(e.cfg.bf, e.pre.height + 1)
 
 C12(e) ==
   LET n0 == Normal(e)
